@@ -240,6 +240,8 @@ def run_chunk(binary, profile, faults, base, count, outdir, deny, samples, mode=
             events.append(('H', cur, 'worker died (rc=%d) outside a run: %s' % (rc, err_text[-2000:])))
             break
         kind, frame, ffile = classify_crash(err_text)
+        if kind == 'crash' and rc in (-6, 134):
+            kind = 'abort'; frame = frame or 'std::abort without a sanitizer report (e.g. an intrusive list destroyed while elements are still linked)'
         if kind == 'harness':
             events.append(('H', inflight, 'sanitizer error inside the harness at %s (%s), seed %d: %s' % (frame, ffile, inflight, err_text[-1500:])))
             break
@@ -266,6 +268,8 @@ def replay(binary, path, timeout=IDLE_S):
             out['hash'] = line.split()[2]
     if p.returncode not in (0, 1):
         k, frame, ffile = classify_crash(p.stderr)
+        if k == 'crash' and p.returncode in (-6, 134):
+            k = 'abort'; frame = frame or 'std::abort without a sanitizer report (e.g. an intrusive list destroyed while elements are still linked)'
         if p.returncode == 78 and k == 'crash':
             k = 'terminate'; ffile = 'terminate'
             m = re.search(r'^T \d+ (\S+)', p.stdout, re.M)
